@@ -165,7 +165,11 @@ V_ExtSer(e) ==               \* e.inp = [node, version, kind]
 
 \* e.inp = [s (text or bytes), form, asPrv, net]; e.res.v = [node, again (re-serialised string)]
 V_ExtParse(e) ==
-  LET body == IF e.inp.form = "str" THEN DecodeExt(e, e.inp.s) ELSE [ok |-> Len(e.inp.s) = 78, body |-> e.inp.s, why |-> "length"]
+  LET body == IF e.inp.form = "str" THEN DecodeExt(e, e.inp.s)
+              ELSE IF e.inp.form = "stream-offset"        \* the key starts at e.inp.offset of a longer stream
+                   THEN [ok |-> Len(e.inp.s) >= e.inp.offset + 78, why |-> "length",
+                         body |-> SubSeq(e.inp.s, e.inp.offset + 1, e.inp.offset + 78)]
+              ELSE [ok |-> Len(e.inp.s) = 78, body |-> e.inp.s, why |-> "length"]
   IN IF ~body.ok THEN (IF Raised(e) THEN "ok" ELSE "ok")      \* malformed input: C10's business
      ELSE
      LET q == ParsePayload(body.body, e.inp.asPrv, e.inp.net)
@@ -181,6 +185,7 @@ V_ExtParse(e) ==
                         ELSE EncCheck(body.body, Hash256(e, body.body))
              IN IF d # "same" THEN "extparse-" \o d
                 ELSE IF e.res.v.version # q.version THEN "extparse-version"
+                ELSE IF e.inp.form = "stream-offset" /\ e.res.v.pos # e.inp.offset + 78 THEN "extparse-stream-position"
                 ELSE IF e.res.v.again # str /\ (IsMaster(want) => IsZero(q.pfp)) THEN "extparse-reserialise-differs"
                 ELSE "ok"
 
@@ -294,6 +299,15 @@ V_Addr(e) ==
                    ELSE "addr-wrong-hash")
      ELSE IF e.res.v # want THEN "addr-string"
      ELSE "ok"
+
+\* several requests on ONE key object, in a given order: e.inp = [K, net, steps: seq of [compressed, kind]];
+\* e.res.v = seq of strings.  The answer to a request must not depend on the earlier ones.
+V_AddrSeq(e) ==
+  IF Raised(e) THEN "addrseq-raised"
+  ELSE LET want(j) == AD!Addr(e, e.inp.steps[j].kind,
+                              IF e.inp.steps[j].compressed THEN e.inp.K ELSE Uncompress(e, e.inp.K), e.inp.net)
+           bad == {j \in 1..Len(e.inp.steps) : e.res.v[j] # want(j)}
+       IN IF bad = {} THEN "ok" ELSE "addrseq-answer-depends-on-earlier-requests-or-wrong"
 
 \* e.inp = [tpl, h]; e.res.v = raw bytes
 V_ScriptTpl(e) ==
@@ -651,6 +665,7 @@ Verdict(e) ==
     [] e.act = "SecParse" -> V_SecParse(e)
     [] e.act = "Addr" -> V_Addr(e)
     [] e.act = "ScriptTpl" -> V_ScriptTpl(e)
+    [] e.act = "AddrSeq" -> V_AddrSeq(e)
     [] e.act = "Hash" -> V_Hash(e)
     [] e.act = "Mnemonic" -> V_Mnemonic(e)
     [] e.act = "WordList" -> V_WordList(e)
